@@ -217,9 +217,21 @@ impl<'a> Eval<'a> {
         if !(dab > lim) {
             return None;
         }
+        // End points half a turn apart (SO(2)) or 180 degrees apart (SO(3)): the metric cannot
+        // tell the two ways round apart, so "on the segment" is then decided by the traversal
+        // the space's own interpolation defines from a to b (the property's words). A library
+        // whose a→b and b→a interpolations run along opposite half circles has its motion
+        // check look at one and the returned path run along the other.
+        let ambiguous = crate::spaces::harness_interp(geo.spec(), a, b, 0.5).is_none();
         let mut pos: Vec<f64> = Vec::new();
         for q in acc {
             if let Some(p) = geo.on_segment(a, b, q, dab) {
+                if ambiguous && dab > 0.0 {
+                    let m = geo.interp(a, b, (p / dab).clamp(0.0, 1.0));
+                    if !(geo.d(q, &m) <= 1e-6 * (1.0 + dab) * crate::spaces::so3_weight_scale(geo.spec())) {
+                        continue;
+                    }
+                }
                 pos.push(p);
             }
         }
